@@ -2367,4 +2367,27 @@ theorem observed_wiresum_end_to_end (c : Circuit) (nodes : Array CNode) (bind : 
   rw [observe_eq_selIn, readsSum_sound c _ hE a RG s es hobs]
   exact wiresum_end_to_end c nodes bind rank hrank hall inp env hinp hagree T hT t ht n es s hn hb
 
+/-! ## input histories: a stateless result depends on the present inputs only -/
+
+/-- **C01 for histories.** Whatever state earlier input values left behind (`s0`), `T` ticks after the inputs took
+their present values every bound scalar carries the value the source denotes for the *present* inputs. -/
+theorem scalar_history_end_to_end (c : Circuit) (nodes : Array CNode) (bind : Nat → Option Bind) (rank : Nat → Nat)
+    (hrank : c.checkRanked rank = true) (hall : checkAll c nodes bind = true)
+    (inp : Inputs) (env : Env) (hinp : InputsOK c inp) (hagree : InputsAgree nodes bind inp env)
+    (s0 : Nat → SigMap) (T : Nat) (hT : ∀ i, rank i < T) (t : Nat) (ht : T ≤ t)
+    (n e : Nat) (s : Sig) (hn : n < nodes.size) (hb : bind n = some (.ent e s)) :
+    get (c.runFrom inp s0 t e) s = nodeVal nodes env n := by
+  rw [Circuit.history_independent c inp s0 rank (Circuit.checkRanked_sound c rank hrank) T hT t ht e]
+  exact scalar_end_to_end c nodes bind rank hrank hall inp env hinp hagree T hT T (Nat.le_refl _) n e s hn hb
+
+/-- **C02 for histories.** -/
+theorem bundle_history_end_to_end (c : Circuit) (nodes : Array CNode) (bind : Nat → Option Bind) (rank : Nat → Nat)
+    (hrank : c.checkRanked rank = true) (hall : checkAll c nodes bind = true)
+    (inp : Inputs) (env : Env) (hinp : InputsOK c inp) (hagree : InputsAgree nodes bind inp env)
+    (s0 : Nat → SigMap) (T : Nat) (hT : ∀ i, rank i < T) (t : Nat) (ht : T ≤ t)
+    (n : Nat) (es : List Nat) (hn : n < nodes.size) (hb : bind n = some (.many es)) (s : Sig) :
+    get (Circuit.sumOuts es (c.runFrom inp s0 t)) s = get ((evalNodes nodes env).getD n []) s := by
+  rw [sumOuts_congr es _ _ (fun e => Circuit.history_independent c inp s0 rank (Circuit.checkRanked_sound c rank hrank) T hT t ht e)]
+  exact bundle_end_to_end c nodes bind rank hrank hall inp env hinp hagree T hT T (Nat.le_refl _) n es hn hb s
+
 end Facto
